@@ -22,12 +22,14 @@ def canon_maps(scn, res):
     for si, s in enumerate(scn["sessions"]):
         log = res["peer"][si]
         ports = list(log.get("announced_ports", []))
+        addrs = list(log.get("announced_addrs", []))
         for ri, r in enumerate(s["reactions"]):
             if r.get("listen") and ports:
                 actual = ports.pop(0)
+                at = addrs.pop(0) if addrs else log["addr"]
                 mp = P.MODEL_PORT + ri
                 subs.append((hx("(|||%d|)" % actual), hx("(|||%d|)" % mp)))
-                subs.append((hx("%s,%d,%d)" % (log["addr"].replace(".", ","), actual // 256, actual % 256)),
+                subs.append((hx("%s,%d,%d)" % (at.replace(".", ","), actual // 256, actual % 256)),
                              hx("127,0,0,1,%d,%d)" % (mp // 256, mp % 256))))
     return subs
 
@@ -1324,7 +1326,7 @@ def fam_tls(rng, n, dist):
         mode, rfc = ALL_METHODS[i % 4]
         fault = rng.choice([None, None, "auth-refused", "ctl-handshake", "pbsz", "prot", "data-handshake", "truncate", "truncate",
                             "truncate", "unknown-ca", "unclean-close", "data-rogue-cert", "data-rogue-cert", "data-reset",
-                            "data-reset", "ctl-reset-after-auth", "upload-no-close-notify"])
+                            "data-reset", "ctl-reset-after-auth", "upload-no-close-notify", "server-drops-tls", "server-drops-tls"])
         if i % 3 == 0:
             fault = "auth-refused"          # (a third of the family: AUTH TLS refused, each code of the list below in turn)
         verify = "unknown" if fault == "unknown-ca" else ("trusted" if fault == "data-rogue-cert" else rng.choice(["trusted", "trusted", "none"]))
@@ -1359,6 +1361,24 @@ def fam_tls(rng, n, dist):
             if keep_using:
                 b.exp[-1]["may_throw"] = True
             out.append(b.scenario()); continue
+        if fault == "server-drops-tls":
+            # in the middle of a healthy session the server answers a command with a TLS close-notify, keeps the TCP
+            # connection and speaks clear text from then on: the client must not follow it there - the call fails, and
+            # whatever the application still does with the client, no command line travels in clear text
+            for _ in range(rng.randrange(0, 3)):
+                add_simple(b, rng, 200)
+            k0 = len(b.calls)
+            b.cur.append(P.reaction([b.m(200, "now in clear text")], tls_drop_first=True))
+            b.add_call(("S", b"NOOP", None), cmds=[b"NOOP"], replies=[], throws=True, check_open=False)
+            b.cur += [P.reaction([b.m(331)]), P.reaction([b.m(230)]), P.reaction([b.m(200)]), P.reaction([b.m(200)]), P.reaction([b.m(200)])]
+            b.add_call(("L", b"user-MARKER-u", b"pass-MARKER-p"), cmds=[], replies=[], throws=True, may_throw=True, cmds_may_be_lost=True,
+                       check_open=False)
+            b.add_call(("X", False), open_after=False, may_throw=True, check_open=True)
+            b.connected = False
+            scn = b.scenario()
+            scn["skip_corr_from"] = k0
+            out.append(scn)
+            continue
         nops = rng.randrange(1, 5)
         rk = rng.randrange(0, nops)          # the transfer whose data port is answered by somebody else
         for k in range(nops):
